@@ -190,3 +190,50 @@ def run_pe(ctx, quick=False):
         ctx.case(key=("pe-sample", ref["file"]))
     ctx.trace(n)
     ctx.count("pe_samples_checked", n)
+
+
+def macho_ref_to_wire(ref):
+    def cmd(c):
+        kind = "seg" if "seg" in c else "main" if "entryoff" in c else "thread" if "pc" in c else "other"
+        d = {"kind": kind, "cmd": digits(c["cmd"], 4) if "cmd" in c else [], "cmdsize": digits(c["cmdsize"], 4)}
+        if kind == "seg":
+            d["seg"] = dict([(k, digits(v & 0xFFFFFFFFFFFFFFFF)) for k, v in c["seg"].items() if k != "segname"] + [("segname", c["seg"]["segname"])])
+            d["sects"] = [dict([(k, digits(v)) for k, v in sc.items() if k not in ("sectname", "segname")] +
+                               [("sectname", sc["sectname"]), ("segname", sc["segname"])]) for sc in c["sects"]]
+        elif kind == "main":
+            d["entryoff"] = digits(c["entryoff"])
+        elif kind == "thread":
+            d["pc"] = digits(c["pc"])
+        return d
+    return {"is64": ref["is64"], "hdr": {k: digits(v, 4) for k, v in ref["hdr"].items()}, "cmds": [cmd(c) for c in ref["cmds"]],
+            "syms": [dict([(k, digits(v)) for k, v in y.items() if k != "name"] + [("name", codes(y["name"]))]) for y in ref["syms"]]}
+
+
+def run_macho(ctx, quick=False):
+    from . import c14macho
+    c14.quiet()
+    n = 0
+    for ref, data, r in validate(ctx, "macho", "MachORef", "MachORef.cfg", macho_ref_to_wire, shards=2):
+        out, drifts = [], []
+        try:
+            p = c14macho.open_macho(data)
+        except Exception as ex:
+            key = "C14:macho:open:raises:" + type(ex).__name__ + (":" + str(ex) if type(ex).__name__ == "StructureError" else "")
+            ctx.fail(key, "%s: MachO() raised %r" % (ref["file"], ex), {"file": ref["file"]})
+            continue
+        try:
+            if c14macho.compare_report(p, r["expect"], out):
+                c14macho.compare_queries(p, r["expect"], r["queries"], out, drifts)
+        except Exception as ex:
+            out.append(("C14:macho:report:raises:" + type(ex).__name__, "reading the parsed object raised %r" % (ex,)))
+        seen = set()
+        for key, what in out:
+            if key not in seen:
+                seen.add(key)
+                ctx.fail(key, "sample %s: %s" % (ref["file"], what), {"source": "T:samples", "format": "macho", "file": ref["file"]})
+        for d in drifts:
+            ctx.drift(d)
+        n += 1
+        ctx.case(key=("macho-sample", ref["file"]))
+    ctx.trace(n)
+    ctx.count("macho_samples_checked", n)
